@@ -96,26 +96,46 @@ func (g *g) drawSlot(str bool) slot {
 	return s
 }
 
-// slotPrelude binds the containers the slots live in.
-func slotPrelude() []*N {
-	return []*N{
-		{K: "let", Ps: []string{"ts"}, Ns: []*N{{K: "mkslice", S: "int64", I: 3}}},
-		{K: "let", Ps: []string{"tstr"}, Ns: []*N{{K: "mkslice", S: "string", I: 2}}},
-		{K: "let", Ps: []string{"ul"}, Ns: []*N{{K: "list", Ns: []*N{Int(0), Int(0), Int(0)}}}},
-		{K: "let", Ps: []string{"uls"}, Ns: []*N{{K: "list", Ns: []*N{Str(""), Str("")}}}},
-		{K: "let", Ps: []string{"sm"}, Ns: []*N{{K: "map", Ns: []*N{Str("k"), Int(0), Str("s"), Str(""), Str("l"), {K: "list", Ns: []*N{Int(1), Int(2), Int(3)}}}}}},
-		{K: "let", Ps: []string{"pv"}, Ns: []*N{Int(0)}},
-		// pointees: `var sx = v; spx = &sx`, sx is never used again (the model holds the pointee under the pointer's name)
-		{K: "var", Ps: []string{"sx"}, Ns: []*N{Int(0)}},
-		{K: "var", Ps: []string{"spx"}, Ns: []*N{{K: "addr", Ns: []*N{Id("sx")}}}},
-		{K: "var", Ps: []string{"sxs"}, Ns: []*N{Str("")}},
-		{K: "var", Ps: []string{"spxs"}, Ns: []*N{{K: "addr", Ns: []*N{Id("sxs")}}}},
-		// containers of lists: every element is stored before it is read
-		{K: "let", Ps: []string{"ull"}, Ns: []*N{{K: "list", Ns: []*N{{K: "list", Ns: []*N{Int(1), Int(2), Int(3)}}, {K: "list", Ns: []*N{Int(4), Int(5), Int(6)}}}}}},
-		{K: "let", Ps: []string{"tss"}, Ns: []*N{{K: "mkslice", S: "[]int64", I: 2}}},
-		{K: "letidx", Ns: []*N{Id("tss"), Int(0), {K: "tlist", S: "int64", Ns: []*N{Int(1), Int(2), Int(3)}}}},
-		{K: "letidx", Ns: []*N{Id("tss"), Int(1), {K: "tlist", S: "int64", Ns: []*N{Int(4), Int(5), Int(6)}}}},
+// slotPrelude binds the containers that the given slot patterns name.
+func slotPrelude(stmts []*N) []*N {
+	if len(stmts) == 0 {
+		return nil
 	}
+	used := map[string]bool{}
+	Walk(stmts, func(n *N) {
+		if n.K == "id" {
+			used[n.S] = true
+		}
+	})
+	list3 := func(b int64) *N { return &N{K: "list", Ns: []*N{Int(b), Int(b + 1), Int(b + 2)}} }
+	tlist3 := func(b int64) *N { return &N{K: "tlist", S: "int64", Ns: []*N{Int(b), Int(b + 1), Int(b + 2)}} }
+	all := []struct {
+		name  string
+		stmts []*N
+	}{
+		{"ts", []*N{{K: "let", Ps: []string{"ts"}, Ns: []*N{{K: "mkslice", S: "int64", I: 3}}}}},
+		{"tstr", []*N{{K: "let", Ps: []string{"tstr"}, Ns: []*N{{K: "mkslice", S: "string", I: 2}}}}},
+		{"ul", []*N{{K: "let", Ps: []string{"ul"}, Ns: []*N{{K: "list", Ns: []*N{Int(0), Int(0), Int(0)}}}}}},
+		{"uls", []*N{{K: "let", Ps: []string{"uls"}, Ns: []*N{{K: "list", Ns: []*N{Str(""), Str("")}}}}}},
+		{"sm", []*N{{K: "let", Ps: []string{"sm"}, Ns: []*N{{K: "map", Ns: []*N{Str("k"), Int(0), Str("s"), Str(""), Str("l"), list3(1)}}}}}},
+		{"pv", []*N{{K: "let", Ps: []string{"pv"}, Ns: []*N{Int(0)}}}},
+		// pointees: `var sx = v; spx = &sx`, sx is never used again (the model holds the pointee under the pointer's name)
+		{"spx", []*N{{K: "var", Ps: []string{"sx"}, Ns: []*N{Int(0)}}, {K: "var", Ps: []string{"spx"}, Ns: []*N{{K: "addr", Ns: []*N{Id("sx")}}}}}},
+		{"spxs", []*N{{K: "var", Ps: []string{"sxs"}, Ns: []*N{Str("")}}, {K: "var", Ps: []string{"spxs"}, Ns: []*N{{K: "addr", Ns: []*N{Id("sxs")}}}}}},
+		// containers of lists: every element is stored before it is read
+		{"ull", []*N{{K: "let", Ps: []string{"ull"}, Ns: []*N{{K: "list", Ns: []*N{list3(1), list3(4)}}}}}},
+		{"tss", []*N{
+			{K: "let", Ps: []string{"tss"}, Ns: []*N{{K: "mkslice", S: "[]int64", I: 2}}},
+			{K: "letidx", Ns: []*N{Id("tss"), Int(0), tlist3(1)}},
+			{K: "letidx", Ns: []*N{Id("tss"), Int(1), tlist3(4)}}}},
+	}
+	var out []*N
+	for _, a := range all {
+		if used[a.name] {
+			out = append(out, a.stmts...)
+		}
+	}
+	return out
 }
 
 func sval(str bool, k int) *N {
@@ -268,10 +288,34 @@ func (g *g) slotRoot() []*N {
 	case 5:
 		// list and map literals
 		s := g.drawSlot(str)
+		kind := g.n(0, 5, "litkind")
+		if kind >= 4 {
+			// the KEY operand of an entry is read from the slot, the value operand of that entry stores into it
+			// (or the other way round: the key operand stores, the value is read afterwards)
+			g.f("slotform_map_literal_key")
+			var e *N
+			switch {
+			case str && g.n(0, 1, "typedmap") == 0:
+				g.f("slot_read_before_the_store")
+				e = &N{K: "tmap", S: "int64", Ns: []*N{s.read(), g.later(&pre, one(s), []*N{sval(str, v1)}, Int(int64(r)))}}
+			case g.n(0, 2, "keylater") == 0:
+				g.f("slot_later_operand_first")
+				g.f("slot_read_after_the_store")
+				e = &N{K: "map", Ns: []*N{g.later(&pre, one(s), []*N{sval(str, v1)}, sval(str, r)), s.read()}}
+			default:
+				g.f("slot_read_before_the_store")
+				e = &N{K: "map", Ns: []*N{s.read(), g.later(&pre, one(s), []*N{sval(str, v1)}, sval(str, r))}}
+			}
+			if e.K == "map" && g.n(0, 1, "more") == 0 {
+				// one more entry whose key is no value of the slot
+				e.Ns = append(e.Ns, sval(str, 7), s.read())
+			}
+			return append(append(pre, s.store(sval(str, v0))), setX(e))
+		}
 		lat := g.later(&pre, one(s), []*N{sval(str, v1)}, sval(str, r))
 		ops := g.operands(g.n(2, 4, "nops"), s, lat, str)
 		var e *N
-		switch g.n(0, 3, "litkind") {
+		switch kind {
 		case 0:
 			g.f("slotform_typed_list_literal")
 			e = &N{K: "tlist", S: map[bool]string{false: "int64", true: "string"}[str], Ns: ops}
